@@ -10,6 +10,8 @@ Binding (fault enumeration derived from the model's request sequence):
  (1) histories with query / user workspace validated against SluApiTrace (guard zones, inside);
  (2) user mode vs internal mode: same script, one thread, outputs bitwise equal;
  (3) every workspace size class from 10 % to 200 % of the library's own estimate, P in 1..4;
+ (3b) a re-factorization in the workspace of the first factorization with more threads than the first call (the factors at the head
+     stay accounted for: SluStack!Reuse in the context "re-factorization", never Setup);
  (4) for five kinds of driver call, failure of allocation request k and all later ones for
      k = 1..K (K measured by a recording run; every k in thorough, every 3rd in quick), under
      ASan/UBSan: the outcome must be the library's diagnostic exit, info > n, or a fully valid
@@ -171,6 +173,48 @@ def workspace_sizes(ck, quick, wd):
                          {"script": txt})
 
 
+def refact_same_workspace(ck, quick, wd):
+    """a re-factorization in the workspace of the first factorization, with as many or MORE threads (more tail space than the first call
+    needed) and a workspace close to what the first call needed: the factors at the head stay accounted for (SluStack!Reuse, ctx = 1),
+    so the extra work arrays are either refused (info > n) or fit -- never carved out of the factors"""
+    items = []
+    for P1, P2 in ((1, 4), (1, 2), (2, 4), (4, 4), (4, 1)):
+        for pct in ((100, 104, 115) if quick else (100, 102, 104, 108, 115, 130, 160)):
+            for mat in ("mat gen=grid n=25 k=5 seed=2 stype=NC", "mat gen=random n=20 dens=250 fulldiag=1 seed=3 stype=NR"):
+                for usepr in (0, 1):
+                    items.append((P1, P2, pct, mat, usepr))
+
+    def one(a):
+        P1, P2, pct, mat, usepr = a
+        txt = "\n".join(HEAD + [mat, "permc order=1", "gssvx P=%d fact=DOFACT trans=N nrhs=1 lwork=auto%d woff=%d" % (P1, pct, (0, 4, 8)[pct % 3]), "vals seed=4",
+                                "gssvx P=%d fact=DOFACT refact=1 usepr=%d trans=N nrhs=1 lwork=auto%d" % (P2, usepr, pct)]) + "\n"
+        name = "rf%d_%d_%d_%d_%d" % (P1, P2, pct, len(mat), usepr)
+        st, op, err = api.run_script(txt, wd, name, variant="asan", timeout=120)
+        rr = [r for r in api.calls_of(op) if r.get("call") == "gssvx"]
+        d = [l for l in err.splitlines() if "SUMMARY" in l or "ERROR" in l]
+        sr, sn = api.validate_stack(wd, name, op) if os.path.exists(op) else (None, 0)
+        return a, st, rr, (d[-1][:160] if d else ""), txt, sr, sn
+    for (P1, P2, pct, mat, usepr), st, rr, d, txt, sr, sn in common.pmap(one, items):
+        key = "refactws:P%d-P%d:%d%%:%s:usepr%d" % (P1, P2, pct, mat.split()[1], usepr)
+        ck.case(key)
+        n = 20 if "n=20" in mat else 25
+        if sr is not None and not tlc.inconclusive(sr):
+            ck.model(sr.get("distinct", 0), sr.get("generated", 0))
+            ck.notes["stack_events_validated"] = ck.notes.get("stack_events_validated", 0) + sn
+            if not sr["ok"]:
+                rl = sr["rejected_line"]
+                ck.violation("stack:" + key, "first factorization with %d thread(s), re-factorization with %d in the same workspace (%d %% of the estimate): the workspace stack left SluStack (%s) at event %s: %s after %s" % (
+                    P1, P2, pct, sr["violated"] or "step not allowed", rl, sr["events"][rl - 1] if rl else "?", sr["events"][rl - 2] if rl and rl > 1 else "start"), {"script": txt})
+            else:
+                ck.traces()
+        # the first call may legitimately fail for lack of space (then the second has nothing to re-factor: the harness skips it)
+        if len(rr) >= 1 and rr[0]["info"] > n + 1:
+            continue
+        if not acceptable(st, rr[-1] if len(rr) == 2 else None, n):
+            ck.violation(key, "first factorization with %d thread(s), re-factorization with %d in the same workspace (%d %% of the lwork=-1 estimate): outcome %s %s %s guard=%s" % (
+                P1, P2, pct, st, d, api.diagnose(rr[-1]) if len(rr) == 2 else "", rr[-1].get("guard") if rr else None), {"script": txt})
+
+
 def user_vs_system(ck, rng, wd, count):
     for i in range(count):
         r = random.Random(rng.randrange(10 ** 9))
@@ -223,6 +267,7 @@ def main(tier):
     user_vs_system(ck, rng, wd, 8 if quick else 60)
     apalache_inductive(ck)
     workspace_sizes(ck, quick, wd)
+    refact_same_workspace(ck, quick, wd)
     fault_enumeration(ck, quick, rng, wd)
     rc = ck.finish()
     if not sens:
